@@ -413,4 +413,12 @@ def corpus_descs():
                  cc.param("s", dict(k="value", dop=deep, dflt=None)),
                  cc.param("tail", dict(k="value", dop=u8(), dflt=None))], False,
                 [{"s": {"blob": b"xy"}, "tail": 1}, {"s": {"blob": b""}, "tail": 1}, {"len": 16, "s": {"blob": b"xy"}, "tail": 1}]))
+    # a LENGTH-KEY whose compu method can yield a negative bit length (length = 8 * key - 16): keys 0 and 1 describe no
+    # object at all -- a decode error, an encode error
+    out.append(([cc.param("sid", dict(k="coded", dct=cc.std(cc.BUINT, 8), v=0x2E)),
+                 cc.param("len", dict(k="lenkey", dop=cc.simple(cc.std(cc.BUINT, 8), cc.linear(-16, 8, 1)))),
+                 cc.param("blob", dict(k="value", dop=cc.simple(cc.paramlen(cc.BBYTES, "len")), dflt=None)),
+                 cc.param("tail", dict(k="value", dop=u8(), dflt=None))], False,
+                [{"blob": b"x", "tail": 1}, {"blob": b"", "tail": 1}, {"len": -8, "blob": b"", "tail": 1}, {"len": 8, "blob": b"x", "tail": 1}],
+                [bytes.fromhex(h) for h in ("2e0055", "2e0155", "2e0255", "2e03aa55", "2e04aa", "2e00", "2e01")]))
     return out
